@@ -160,6 +160,11 @@ def run_query(m, q):
             return {"ok": [[k, num(v)] for k, v in m.get_parameter_values().items()]}
         if kind == "classes":
             return {"ok": [list(m.get_derived_parameter_names()), list(m.get_derived_variable_names())]}
+        if kind == "simy0":
+            from mxlpy import Simulator
+
+            sim = Simulator(m)
+            return {"ok": [[k, num(v)] for k, v in sim.y0.items()]}
         t = fexpr.to_float(Fraction(q[2])) if kind != "call" else fexpr.to_float(Fraction(q[1]))
         if kind == "args":
             s = m.get_args(_vars_arg(q[1]), t)
@@ -389,7 +394,7 @@ class Spec:
         """spec answer to a query, canonical form"""
         try:
             kind = q[0]
-            if kind == "init":
+            if kind in ("init", "simy0"):
                 return {"ok": self.init_conditions()}
             if kind == "classes":
                 self.check()
